@@ -861,6 +861,9 @@ class Interp:
             return self.make_value("tmpvec", ty)
         if len(args) == 1:
             return self.copyval(self.ev(args[0], env))
+        tn = str(ty.get("n", ""))
+        if not args and (tn.startswith("std::minus") or tn.startswith("std::plus")):
+            return ("stdop", "-" if tn.startswith("std::minus") else "+")
         raise Unsupported("constructor %s (line %s)" % (pp(e)[:80], e.get("line")))
 
     def call_ctor(self, f, args, env, ty):
@@ -1227,6 +1230,89 @@ class Interp:
                     return a + [((k_ if c["op"] == "+" else -k_), tag, st, cnt) for k_, tag, st, cnt in b]
         return None
 
+    def std_transform(self, e, env, args):
+        """std::transform summarised like the element loop it is: out[o + r] = f(in[a + r] (, in2[b + r])) for r in
+        [0, last - first); out may be a back_inserter (push_back per element).  f is a lambda of this translation unit
+        or std::minus / std::plus."""
+        binary = len(args) == 5
+        first, last = self.ev(args[0], env), self.ev(args[1], env)
+        second = self.ev(args[2], env) if binary else None
+        out = self.ev(args[3 if binary else 2], env)
+        fn = self.ev(args[-1], env)
+        its = [first, last] + ([second] if binary else [])
+        if not all(isinstance(x, tuple) and x[0] == "iter" and x[1].kind in ("scal", "struct") for x in its) or first[1] is not last[1]:
+            raise Unsupported("transform on unsupported ranges (line %s)" % e.get("line"))
+        a0, a1 = self.iter_offset(first), self.iter_offset(last)
+        cnt = sp.expand(a1 - a0)
+        r = S("tr_%d" % (len(self.loop_stack) + len(self.loops)), integer=True, nonnegative=True)
+        summ = LoopSummary(r, Integer(0), None, 1, e.get("line"))
+        summ.hi, summ.cond_op, summ.is_comp, summ.name = cnt, "<", False, "transform"
+        summ.pos = self.tick()
+        for c_ in self.all_containers(env):
+            if c_.store:
+                c_.history.append((c_.gen, list(c_.store)))
+                c_.bump()
+        frame = {"summary": summ, "comp_var": None, "var": r}
+        self.loop_stack.append(frame)
+        tnode = None
+        if self.tracing:
+            tnode = {"type": "loop", "line": e.get("line"), "var": r, "lo": Integer(0), "hi": cnt, "op": "<", "step": 1, "items": []}
+            self.trace_stack[-1].append(tnode)
+            self.trace_stack.append(tnode["items"])
+        try:
+            x1 = first[1].read((sp.expand(a0 + r),))
+            vals = [x1]
+            if binary:
+                vals.append(second[1].read((sp.expand(self.iter_offset(second) + r),)))
+            if isinstance(fn, tuple) and fn and fn[0] == "stdop":
+                if len(vals) != 2:
+                    raise Unsupported("unary transform with a binary functor")
+                val = vals[0] - vals[1] if fn[1] == "-" else vals[0] + vals[1]
+            elif isinstance(fn, tuple) and fn and fn[0] == "lambda":
+                lam = fn[1]
+                specs = lam.get("specs", [])
+                if len(specs) != 1 or len(specs[0].get("params", [])) != len(vals):
+                    raise Unsupported("transform with a callable of another arity")
+                env2 = fn[2] if lam.get("default") == "ref" else dict(fn[2])
+                for p_, v_ in zip(specs[0]["params"], vals):
+                    env2[p_["id"]] = v_
+                saved_this = self.this_obj
+                if len(fn) > 3:
+                    self.this_obj = list(fn[3])
+                try:
+                    val = self.exec_block_returning(specs[0]["body"], env2)
+                finally:
+                    self.this_obj = saved_this
+            else:
+                raise Unsupported("transform with an unsupported callable (line %s)" % e.get("line"))
+            if isinstance(out, tuple) and out[0] == "backins":
+                self.record(out[1].name, ("push",), "push_back", val, e)
+            elif isinstance(out, tuple) and out[0] == "iter":
+                key = (sp.expand(self.iter_offset(out) + r),)
+                if out[1].kind == "struct":
+                    self.assign(Ref("structelem", cont=out[1], key=key), val, e)
+                else:
+                    self.assign(Ref("elem", cont=out[1], key=key), val, e)
+            else:
+                raise Unsupported("transform into an unsupported destination")
+        finally:
+            self.loop_stack.pop()
+            if tnode is not None:
+                self.trace_stack.pop()
+        if self.loop_stack:
+            self.loop_stack[-1]["summary"].inner.append(summ)
+        else:
+            self.loops.append(summ)
+        pushed = set()
+        for eff in summ.effects:
+            self.havoc_after_loop(eff, env, summ)
+            if eff.op == "push_back" and eff.target not in pushed:
+                pushed.add(eff.target)
+                cont = self.find_container(eff.target, env)
+                if cont is not None:
+                    cont.size = sp.expand(cont.size + cnt) if cont.size is not None else None
+        return out
+
     def zero_of(self, ty):
         v = self.make_value("zero", ty, symbolic=False)
         if isinstance(v, Vec):
@@ -1520,6 +1606,12 @@ class Interp:
                             cnt = cnt + 1
                     return cnt
                 raise Unsupported("std::count on unsupported ranges (line %s)" % e.get("line"))
+            if nm == "back_inserter" and len(args) == 1:
+                c_ = self.ev(args[0], env)
+                if isinstance(c_, Container):
+                    return ("backins", c_)
+            if nm == "transform" and len(args) in (4, 5):
+                return self.std_transform(e, env, args)
             if nm == "accumulate" and len(args) == 3:
                 first, last = self.ev(args[0], env), self.ev(args[1], env)
                 init = self.ev(args[2], env)
@@ -1594,6 +1686,18 @@ class Interp:
                 r.gen, r.store, r.size, r.zeroed, r.kind = v.gen, list(v.store), v.size, v.zeroed, v.kind
                 self.record(r.name, ("*",), "=", ("copy", v.name, v.tag()), node)
                 r.copied_from = v.name
+                return
+            if isinstance(v, RangeVal) and r.kind == "rows" and isinstance(v.vec, Vec):
+                # whole array := element-wise expression over runs of rows: row r_ of the new generation, 0 <= r_ < count
+                r.bump()
+                r.size = sp.expand(v.count)
+                r.write((RSYM,), v.vec)
+                self.range_count = v.count
+                try:
+                    self.record(r.name, (RSYM,), "=", v.vec, node)
+                finally:
+                    self.range_count = None
+                self.effects_ranges.append((r.name, Integer(0), v.count, v.vec, node.get("line") if isinstance(node, dict) else None))
                 return
             raise Unsupported("container assigned from %s" % type(v).__name__)
         if not isinstance(r, Ref):
